@@ -290,3 +290,68 @@ pub async fn verif_check_candidate(sessions: &[(bool, u64, String)], auth: &[u64
     }
     r.to_string()
 }
+
+struct VerifSub(std::sync::Arc<std::sync::Mutex<Vec<String>>>);
+impl NodeEventSubscription for VerifSub {
+    fn node_session_opened(&self, ses: NodeServerSessionInformation) {
+        self.0.lock().unwrap().push(format!("opened:{}", ses.node_id));
+    }
+    fn node_session_disconnected(&self, ses: NodeServerSessionInformation) {
+        self.0.lock().unwrap().push(format!("disconnected:{}", ses.node_id));
+    }
+    fn node_session_authenticated(&self, ses: NodeServerSessionInformation) {
+        self.0.lock().unwrap().push(format!("authenticated:{}", ses.node_id));
+    }
+    fn node_session_ready(&self, ses: NodeServerSessionInformation) {
+        self.0.lock().unwrap().push(format!("ready:{}", ses.node_id));
+    }
+}
+
+/// `ConnectionReady(x)` handled by the real NodeServer for every session x of the state (sessions 1..n to the peer "peer", given as (is_server, nonce);
+/// `auth` = ids recorded as authenticated): which sessions are reported ready to a subscriber. Returns the ids reported, in order of x.
+pub async fn verif_ready(sessions: &[(bool, u64)], auth: &[u64]) -> Vec<u64> {
+    let mut reported = Vec::new();
+    for x in 1..=sessions.len() as u64 {
+        let (listener, _lh) = Actor::spawn(None, VerifListener, ()).await.unwrap();
+        let (me, _mh) = Actor::spawn(None, VerifServerActor, ()).await.unwrap();
+        let mut node_sessions = HashMap::new();
+        let mut connection_ids = HashMap::new();
+        let mut actors = Vec::new();
+        for (i, (srv, nonce)) in sessions.iter().enumerate() {
+            let n = i as u64 + 1;
+            let (s, _sh) = Actor::spawn(None, VerifSess, ()).await.unwrap();
+            let mut info = NodeServerSessionInformation::new(s.clone(), *srv, 100 + n, format!("addr{n}"));
+            info.peer_name = Some(auth_protocol::NameMessage { name: "peer".to_string(), flags: None, connection_string: "peer:1".to_string(), connection_id: 0 });
+            node_sessions.insert(s.get_id(), info);
+            connection_ids.insert(s.get_id(), NonZeroU64::new(*nonce));
+            actors.push((n, s));
+        }
+        let id_of = |n: u64| actors.iter().find(|(k, _)| *k == n).map(|(_, a)| a.get_id()).unwrap();
+        let log = std::sync::Arc::new(std::sync::Mutex::new(Vec::new()));
+        let mut subscriptions: HashMap<String, Box<dyn NodeEventSubscription>> = HashMap::new();
+        subscriptions.insert("sub".to_string(), Box::new(VerifSub(log.clone())));
+        let mut state = NodeServerState {
+            listener,
+            node_sessions,
+            node_id_counter: 200,
+            this_node_name: auth_protocol::NameMessage { name: "this".to_string(), flags: None, connection_string: "this:1".to_string(), connection_id: 0 },
+            subscriptions,
+            connection_ids,
+            authenticated_sessions: auth.iter().map(|n| id_of(*n)).collect(),
+        };
+        let server = NodeServer::new(0, "cookie".to_string(), "this".to_string(), "localhost".to_string(), None, None);
+        let _ = server.handle(me.clone(), NodeServerMessage::ConnectionReady(id_of(x)), &mut state).await;
+        let l = log.lock().unwrap().clone();
+        if l.iter().any(|e| e == &format!("ready:{}", 100 + x)) {
+            reported.push(x);
+        }
+        if l.iter().any(|e| !e.starts_with("ready:") || e != &format!("ready:{}", 100 + x)) {
+            reported.push(1000 + x); // a foreign event
+        }
+        for (_, a) in actors {
+            a.stop(None);
+        }
+        me.stop(None);
+    }
+    reported
+}
